@@ -14,6 +14,22 @@ LEVEL_TEXT = ("Static structural proof of necessary conditions: (R6.1) alias-bas
 LEVEL_EXTRA = 'Added after the seeded evaluation: (R6.2) the missing marker is compared as a whole cell, never removed as a substring; (R6.3) every reference substitution goes through the n/a-aware splicer; (R6.4) one reference pattern (text and flags) for assembly and sidecar validation. (R6.5) text interpolated into a regular-expression pattern in the assembly modules goes through re.escape; a substituting transformer steps aside for every missing cell text. (R6.6) the replacement handed to re.sub in the assembly modules is a constant or a function. (R6.7) reset_column_mapper rebinds self._sidecar on every path. (R6.8) the categorical lookup applies no case normalisation. (R6.9) a parameter is handed on to every repository callee that takes a parameter of the same name (11 frozen exceptions package-wide).'
 
 
+_CONST_CTX = []      # (prog, [modules]) of the run in progress: lets a named module constant stand for its text
+
+
+def _const(e):
+    """The constant value of a literal, or of a module-level constant of the assembly modules; ... (Ellipsis) when unknown."""
+    if isinstance(e, ast.Constant):
+        return e.value
+    if _CONST_CTX and isinstance(e, (ast.Name, ast.Attribute)):
+        prog, mods = _CONST_CTX[0]
+        for m in mods:
+            v = prog.try_const(e, m, None, None, default=Ellipsis)
+            if v is not Ellipsis:
+                return v
+    return Ellipsis
+
+
 def sentinels(expr, var):
     """Cell texts that the boolean expression treats as 'missing' for variable `var` (i.e. for which it is false)."""
     out = set()
@@ -28,10 +44,10 @@ def sentinels(expr, var):
         return {""}
     if isinstance(expr, ast.Compare) and len(expr.ops) == 1 and isinstance(expr.left, ast.Name) and expr.left.id == var:
         c = expr.comparators[0]
-        if isinstance(expr.ops[0], ast.NotEq) and isinstance(c, ast.Constant):
-            return {c.value}
+        if isinstance(expr.ops[0], ast.NotEq) and _const(c) is not Ellipsis:
+            return {_const(c)}
         if isinstance(expr.ops[0], ast.NotIn) and isinstance(c, (ast.Tuple, ast.List, ast.Set)):
-            return {e.value for e in c.elts if isinstance(e, ast.Constant)}
+            return {_const(e) for e in c.elts if _const(e) is not Ellipsis}
     return out
 
 
@@ -46,15 +62,17 @@ def missing_set(test, var):
         return sentinels(test.operand, var)
     if isinstance(test, ast.Compare) and len(test.ops) == 1 and isinstance(test.left, ast.Name) and test.left.id == var:
         c = test.comparators[0]
-        if isinstance(test.ops[0], ast.Eq) and isinstance(c, ast.Constant):
-            return {c.value}
+        if isinstance(test.ops[0], ast.Eq) and _const(c) is not Ellipsis:
+            return {_const(c)}
         if isinstance(test.ops[0], ast.In) and isinstance(c, (ast.Tuple, ast.List, ast.Set)):
-            return {e.value for e in c.elts if isinstance(e, ast.Constant)}
+            return {_const(e) for e in c.elts if _const(e) is not Ellipsis}
     return set()
 
 
 def run(ctx):
     prog, cg = ctx.prog, ctx.cg
+    _CONST_CTX[:] = [(prog, [m for m in (prog.find_module("models.base_input"), prog.find_module("models.df_util"),
+                                         prog.find_module("models.column_mapper")) if m is not None])]
     ctx.rule("R6.1", "assembly never mutates the input object's table, sidecar, mapper or other state")
     ctx.rule("R6.2", "combiner, splicer and transformers agree on the set of 'missing' cell texts")
     ctx.assume("pandas methods without inplace=True (astype, transform, apply, copy ...) return new objects")
@@ -235,6 +253,10 @@ def run(ctx):
             s = sentinels(lam.body, lam.args.args[0].arg)
             if s:
                 comb |= s
+        elif isinstance(lam, ast.comprehension) and isinstance(lam.target, ast.Name) and lam.ifs:
+            # the same filter written as the condition of a comprehension over the row's cells
+            for cond_ in lam.ifs:
+                comb |= sentinels(cond_, lam.target.id)
     # the marker is a whole-cell value: removing it as a substring (str.replace) is not a 'missing cell' test
     substr = [c for c in ast.walk(cdf.node) if isinstance(c, ast.Call) and isinstance(c.func, ast.Attribute)
               and c.func.attr == "replace" and c.args and isinstance(c.args[0], ast.Constant) and c.args[0].value == "n/a"]
